@@ -9,10 +9,10 @@ package main
 import (
 	"fmt"
 	"go/constant"
-	"path/filepath"
-	"strings"
 	"go/token"
 	"go/types"
+	"path/filepath"
+	"strings"
 
 	"golang.org/x/tools/go/ssa"
 )
@@ -55,9 +55,9 @@ type AObj struct {
 	T types.Type
 }
 
-func avB(b bool) AV     { return AV{K: avBool, B: b} }
-func avI(i int64) AV    { return AV{K: avInt, I: i} }
-func avS(s string) AV   { return AV{K: avStr, S: s} }
+func avB(b bool) AV       { return AV{K: avBool, B: b} }
+func avI(i int64) AV      { return AV{K: avInt, I: i} }
+func avS(s string) AV     { return AV{K: avStr, S: s} }
 func avAtomV(n string) AV { return AV{K: avAtom, S: n} }
 func avIfaceOf(dyn string, inner AV) AV {
 	return AV{K: avIface, Dyn: dyn, Inner: &inner}
